@@ -69,7 +69,7 @@ class ObservingPacketizer(Packetizer):
         ptype, m = Packetizer.read_message(self)
         sim = core.CURRENT
         if sim is not None and sim.holder():
-            p = m.asbytes()
+            p = bytes([ptype]) + m.asbytes()      # full payload, type byte first (as for tx)
             seq = sim.record("rx", self.obs_side, ptype, len(p))
             log = self.obs_log
             if log is not None:
